@@ -337,7 +337,14 @@ class CallListerVisitor(ast.NodeVisitor):
             self.namespace[node.id] = Unknown(node)
 
     def visit_Attribute(self, node):
-        pass
+        # a bound method of **kwargs (p = kwargs.pop) is a way to change it
+        base = node.value
+        while isinstance(base, ast.Attribute):
+            base = base.value
+        if isinstance(base, ast.Name):
+            marker = self.namespace.get(base.id)
+            if marker is not None and marker is self.varkwargs:
+                marker.tainted = node
 
     def has_hide_starargs(self, found, original):
         if found:
